@@ -313,6 +313,7 @@ func (st *State) applyContract(fr *Frame, in ssa.CallInstruction, ct *Contract, 
 	if !fr.isUnit {
 		site = fr.fn.Name() + "/" + site
 	}
+	var outOfScope []*Term
 	for i, r := range ct.Requires {
 		label := r.Label
 		if label == "" {
@@ -323,7 +324,14 @@ func (st *State) applyContract(fr *Frame, in ssa.CallInstruction, ct *Contract, 
 		if len(props) == 0 {
 			props = u.c.Props
 		}
-		st.e.addObligation(st, u, "requires", fmt.Sprintf("%s.%s", ct.Func, label), site, g, mergeProps(props, nil), r.Src, false)
+		if len(r.Props) > 0 && !intersects(r.Props, u.c.Props) {
+			// A precondition explicitly tagged with properties this unit is not part of the proof of: it is neither
+			// checked nor assumed here; the callee's postconditions are then only known under it.
+			outOfScope = append(outOfScope, g)
+			st.e.note(u.name, "assumption", fmt.Sprintf("precondition %s.%s (props %v) is outside this unit's properties at %s: not checked; the callee's postconditions are used only under it", ct.Func, label, props, site))
+			continue
+		}
+		st.e.addObligation(st, u, "requires", fmt.Sprintf("%s.%s", ct.Func, label), site, g, mergeProps(props, u.c.Props), r.Src, false)
 		st.assume(g)
 	}
 	if ct.HasMods && len(ct.Modifies) > 0 {
@@ -349,11 +357,12 @@ func (st *State) applyContract(fr *Frame, in ssa.CallInstruction, ct *Contract, 
 		env.vars["result"] = envVar{resVals[0], results.At(0).Type()}
 	}
 	env.assume = true
+	hyp := And(outOfScope...)
 	for _, c := range ct.Ensures {
-		st.assume(st.elabBool(env, c.E))
+		st.assume(Implies(hyp, st.elabBool(env, c.E)))
 	}
 	for _, c := range ct.GhostEns {
-		st.assume(st.elabBool(env, c.E))
+		st.assume(Implies(hyp, st.elabBool(env, c.E)))
 	}
 	env.assume = false
 	for _, g := range ct.GhostSet {
